@@ -658,11 +658,15 @@ def install(lib):
     def np_amax(ex, x, axis=None, **k):
         if isinstance(x, Arr):
             return axiomatize_max(ex, [], x, "max")
+        if is_sym(x) and x.sort() == Leaf:
+            return z3.Function("vector_max", Leaf, Leaf)(x)      # reduction of an opaque vector: a different value, not the vector
         return x
 
     def np_amin(ex, x, axis=None, **k):
         if isinstance(x, Arr):
             return axiomatize_max(ex, [], x, "min")
+        if is_sym(x) and x.sort() == Leaf:
+            return z3.Function("vector_min", Leaf, Leaf)(x)
         return x
 
     common = dict(all=np_all, any=np_any, flip=np_flip, searchsorted=np_searchsorted, max=np_amax, min=np_amin, amax=np_amax, amin=np_amin, zeros=np_zeros, interp=np_interp, argwhere=np_argwhere, ones=np_ones, arange=np_arange, array=np_array, asarray=np_asarray, where=np_where, clip=np_clip, roll=np_roll, take=np_take, maximum=np_maximum, minimum=np_minimum,
